@@ -279,6 +279,11 @@ def isOpaque : V → Bool
   | mac .. | loopRef _ | kwargs _ => true
   | _ => false
 
+/-- macro objects and the loop object (keyword arguments are ordinary arguments of a builtin) -/
+def isObject : V → Bool
+  | mac .. | loopRef _ => true
+  | _ => false
+
 end V
 
 end MJ.Undef
